@@ -560,7 +560,27 @@ def process_const(repo, args):
                      source_tokens=it.end - it.start, inserted_tokens=0)
 
 
-def assemble(template_path, repo):
+def stub_from_mirror(mirror_text):
+    """the mirror's header (signature + contract) with an `external_body` stub body: used when a function of the current
+    source cannot be brought under its annotations (it is then an ASSUMED contract and every property it serves is undecided)"""
+    toks = R.lex(mirror_text, markers=True)
+    k = next(i for i, t in enumerate(toks) if t.text == 'fn' and not t.ann)
+    j = k; depth = 0; body = None
+    while j < len(toks):
+        t = toks[j]
+        if t.text in ('(', '['): depth += 1
+        elif t.text in (')', ']'): depth -= 1
+        elif t.text == '{' and depth == 0 and not t.ann:
+            body = t; break
+        j += 1
+    if body is None: raise ExtractError('cannot stub: no body found in the mirror')
+    # qualifiers before `fn` (pub, unsafe, ..) stay in front of the attribute-free header
+    head = mirror_text[:body.pos].rstrip()
+    first = toks[0].pos if toks else 0
+    return mirror_text[:first] + '#[verifier::external_body] ' + head[first:] + '\n    { unimplemented!() }'
+
+
+def assemble(template_path, repo, stub=None, tolerant=False):
     """-> (unit text, blocks, linemap). blocks: list of info dicts with first/last output line.
     linemap[line] = (block index or None, tags string)"""
     lines = open(template_path).read().split('\n')
@@ -585,7 +605,19 @@ def assemble(template_path, repo):
         else:
             nxt = i + 1
         mirror = '\n'.join(body)
-        if kind == 'FN': text, info = process_fn(repo, args, mirror)
+        skey = (args.get('owner', '-'), args.get('name'))
+        if kind == 'FN' and stub and skey in stub:
+            text = stub_from_mirror(mirror)
+            info = dict(file=args['file'], owner=args.get('owner', '-'), name=args['name'], status='STUBBED (assumed contract: ' + stub[skey][:160] + ')', rewrites=[],
+                        source_line=0, source_tokens=0, inserted_tokens=0, stubbed=stub[skey])
+        elif kind == 'FN' and tolerant:
+            try:
+                text, info = process_fn(repo, args, mirror)
+            except ExtractError as e:
+                text = stub_from_mirror(mirror)
+                info = dict(file=args['file'], owner=args.get('owner', '-'), name=args['name'], status='STUBBED (assumed contract: extractor: ' + str(e)[:160] + ')', rewrites=[],
+                            source_line=0, source_tokens=0, inserted_tokens=0, stubbed='extractor: ' + str(e))
+        elif kind == 'FN': text, info = process_fn(repo, args, mirror)
         elif kind == 'SIG': text, info = process_sig(repo, args, mirror)
         elif kind == 'STRUCT': text, info = process_def(repo, 'struct', args, mirror)
         elif kind == 'ENUM': text, info = process_def(repo, 'enum', args, mirror)
